@@ -306,7 +306,7 @@ func check(id, tier string) int {
 	wg.Wait()
 	if cfg.race {
 		// free-running workload under the race detector (runtime monitoring part)
-		args := []string{"-wsim.prop", id, "-wsim.tier", tier, "-wsim.seed", fmt.Sprint(seed), "-wsim.race", "-wsim.out", outDir,
+		args := []string{"-wsim.prop", id, "-wsim.tier", tier, "-wsim.seed", fmt.Sprint(seed), "-wsim.race", "-wsim.out", outDir, "-wsim.budget", fmt.Sprint(tc.budget),
 			"-wsim.sites", filepath.Join(b.dir, "sites.json")}
 		out, err, timedOut := runEngine(b.binRace, time.Duration(tc.budget*2+300)*time.Second, args...)
 		if timedOut {
